@@ -584,7 +584,11 @@ class Fn2(c2lean.Fn):
                 continue
             cur = env.vars[local]
             nm2 = env.fresh(local, lty(cur.ty))
-            env.prelets.append(f"let {nm2} := (({proj(base + j)}).getD {cur.s})")
+            if cur.ty.kind == "i":                  # an out-parameter holds a bit pattern: reinterpret as signed
+                curpat = self.conv(V(cur.s, cur.ty), Ty("u", cur.ty.width)).s
+                env.prelets.append(f"let {nm2} := (sx {cur.ty.width} (({proj(base + j)}).getD {curpat}))")
+            else:
+                env.prelets.append(f"let {nm2} := (({proj(base + j)}).getD {cur.s})")
             env.vars[local] = V(nm2, cur.ty)
         for cnm, own in struct_pass:
             keys = callee.out_keys()
@@ -980,6 +984,8 @@ class Fn2(c2lean.Fn):
                 buf, pos = p.ptr
             ty = parse_type(lhs["type"])
             v = self.conv(val, ty)
+            if ty.kind == "i":                      # memory holds the two's-complement bit pattern
+                v = self.conv(v, Ty("u", ty.width))
             pre = self.flush_lets(env)
             if isinstance(buf, str) and buf.startswith("@bytes:"):
                 name = buf[7:]
@@ -1013,6 +1019,8 @@ class Fn2(c2lean.Fn):
 
     def store_at(self, env, buf, pos, val, ty):
         v = self.conv(val, ty)
+        if ty.kind == "i":
+            v = self.conv(v, Ty("u", ty.width))
         if isinstance(buf, str) and buf.startswith("@bytes:"):
             name = buf[7:]
             cur = env.vars[name]
@@ -1662,6 +1670,19 @@ TARGETS2 = {
         ("harness/vw_split.c", "vw_splitPut", "splitPut"),
         ("harness/vw_split.c", "vw_splitGet", "splitGet"),
         ("harness/vw_split.c", "vw_splitGetLen", "splitGetLen"),
+    ],
+    "CDelta": [
+        ("import", "CExternal", "varintExternal.c:varintExternalLoadFromEncodingLittleEndian_:extLoadLE,"
+                                "varintExternal.c:varintExternalPutFixedWidth:extPutFixedWidth,"
+                                "varintExternal.c:varintExternalGet:extGet"),
+        ("import", "CSizes", "varintDelta.c:varintDeltaZigZag:deltaZigZag:legacy,"
+                             "varintDelta.c:varintDeltaZigZagDecode:deltaZigZagDecode:legacy"),
+        ("varintDelta.c", "varintDeltaPut", "deltaPut"),
+        ("varintDelta.c", "varintDeltaGet", "deltaGet"),
+        ("varintDelta.c", "varintDeltaEncode", "deltaEncode"),
+        ("varintDelta.c", "varintDeltaDecode", "deltaDecode"),
+        ("varintDelta.c", "varintDeltaEncodeUnsigned", "deltaEncodeUnsigned"),
+        ("varintDelta.c", "varintDeltaDecodeUnsigned", "deltaDecodeUnsigned"),
     ],
     "CAdaptive": [
         ("varintAdaptive.c", "varintAdaptiveCheckSorted", "adaptiveCheckSorted"),
